@@ -554,6 +554,21 @@ func TestVerifC07(t *testing.T) {
 			script(1, evs...)
 		}
 	}
+	// 4d. whole-client scripts (the client LTS): keep-alives are still acknowledged after a caller has given up while
+	// its reply was half-way in, and during application silence longer than the client's timeout (every write gets a
+	// fresh deadline, acknowledgements included)
+	for _, sc := range []string{
+		"new:0 start pf:63:0:1:0 call:1:2:1001 w:1 pspart:11:12:@1:5 cancel:1 r:1 psrest ps:62:0:9 w:2 ps:62:0:10 w:3 close pc rc",
+		"new:0 start pf:63:0:1:0 call:1:2:1001 w:1 pspart:10:12:@1:5 cancel:1 r:1 psrest ps:62:0:9 w:2 call:2:2:1002 w:3 ps:12:@2:6 r:2 ps:62:0:10 w:4 close pc rc",
+		"new:0 start pf:63:0:1:0 call:1:2:1001 w:1 call:2:2:1002 w:2 pspart:17:12:@2:5 cancel:2 r:2 cancel:1 r:1 psrest ps:62:0:1 w:3 ps:12:@1:7 ps:62:0:2 w:4 close pc rc",
+		"new:0:400 start pf:63:0:1:0 call:1:2:1001 w:1 ps:12:@1:5 r:1 zz:150 ps:62:0:1 w:2 zz:150 ps:62:0:2 w:3 zz:150 ps:62:0:3 w:4 zz:150 ps:62:0:4 w:5 close pc rc",
+		"new:1:400 start pf:63:0:1:0 w:1 ps:100:0:110 zz:150 ps:62:0:1 w:2 zz:150 ps:62:0:2 w:3 zz:150 ps:62:0:3 w:4 zz:150 ps:62:0:4 w:5 close pc rc",
+	} {
+		req := "lts " + sc
+		if only == "" || only == req {
+			o.line(req, ltsPlay(sc))
+		}
+	}
 	// 5. keep-alive as the very first message (observed here; the rule belongs to C08)
 	for _, id := range []uint32{0, 77} {
 		req := fmt.Sprintf("first-ka %d", id)
